@@ -57,12 +57,22 @@ def gen_case(rng: Rng) -> dict:
     actor_deps = []
     for i in range(rng.randint(1, 3)):
         actor_deps.append({"name": f"d{i}", "kind": rng.choice(["pk", "ko"]), "target": rng.choice(["msg"] + list(range(1, n + 1)) * 3)})
+    # a second, separate Depends marker over the SAME provider function as marker n (written again in another signature):
+    # the two are independent — overriding one says nothing about the other
+    twin = rng.random() < 0.45
+    if twin:
+        provs[n + 1] = dict(provs[n], twin_of=n)
+        for q in actor_deps + [q for p in provs.values() for q in p["refs"]]:
+            if q["target"] == n and rng.random() < 0.5:
+                q["target"] = n + 1
+        if rng.random() < 0.7:
+            actor_deps.append({"name": f"d{len(actor_deps)}", "kind": "ko", "target": rng.choice([n, n + 1])})
     rounds = []
     fresh = 1000
     for r in range(rng.randint(2, 4)):
         ovs = []
         for _ in range(rng.choice([0, 0, 1, 1, 2])):
-            k = rng.randint(1, n)
+            k = rng.randint(1, n + 1 if twin else n)
             fresh += 1
             p = gen_provider(rng, k, n, fresh)
             p["fails"] = rng.random() < 0.08
@@ -169,10 +179,18 @@ class World:
         return self.ns[name]
 
     def build(self, provs: dict) -> None:
+        twins = {k: p for k, p in provs.items() if p.get("twin_of") is not None}
         for k in sorted(provs, reverse=True):
+            if k in twins:
+                continue
             d = Depends(self.make_provider(provs[k]))
             self.D[k] = d
             self.ns[f"D{k}"] = d
+            for k2, p2 in twins.items():
+                if p2["twin_of"] == k:
+                    d2 = Depends(self.ns[f"prov_{p2['fn']}"])       # the very same function object, a marker of its own
+                    self.D[k2] = d2
+                    self.ns[f"D{k2}"] = d2
 
     def make_actor(self, actor_deps: list, varkw: bool = False):
         s = {"po": [], "pk": [{"name": "x", "dflt": False, "dep": False}, {"name": "y", "dflt": True, "dep": False}],
